@@ -1048,6 +1048,24 @@ impl<'a> RepositoryUpdate<'a> {
         };
 
         if !deltas.is_empty() {
+            // Deltas are applied in place. Before we start, forget the
+            // validators of the notification file so that, should we be
+            // interrupted, the next update cannot be told “not modified”
+            // while the archive is neither the old nor the new version.
+            if state.etag.is_some() || state.last_modified_ts.is_some() {
+                let mut state = state.clone();
+                state.etag = None;
+                state.last_modified_ts = None;
+                if let Err(err) = archive.update_state(&state) {
+                    if err.should_retry() {
+                        return Ok(Some(SnapshotReason::CorruptArchive))
+                    }
+                    else {
+                        return Err(err)
+                    }
+                }
+            }
+
             let count = deltas.len();
             for (i, info) in deltas.iter().enumerate() {
                 self.log.debug(format_args!(
